@@ -113,17 +113,35 @@ func c01NoRefetch(c *Ctx) {
 			blk := cs.In.Block()
 			loadPat := Call("linking.LinkSystem).Load", Field("lsys", Any()), Any(), Op("complit", "linking/cid.Link", Op("fieldinit", "Cid", Is(b["c"]))))
 			ok := len(blk.Preds) > 0
-			for _, p := range blk.Preds {
+			var edgeOK func(p, to *ssa.BasicBlock, depth int) bool
+			edgeOK = func(p, to *ssa.BasicBlock, depth int) bool {
 				pok := false
-				for _, fct := range append(c.FactsAt(p), edgeFact(c, p, blk)...) {
+				for _, fct := range append(c.FactsAt(p), edgeFact(c, p, to)...) {
 					if _, m := Match(EqNil(Extract("0", loadPat)), fct.Cond); m && fct.Val {
 						pok = true // node == nil
 					}
 					if _, m := Match(EqNil(Extract("1", loadPat)), fct.Cond); m && !fct.Val {
 						pok = true // err != nil
 					}
+					if call, isCall := cs.In.(*ssa.Call); isCall {
+						if _, m := Match(EqNil(Is(c.E(call))), fct.Cond); m && !fct.Val {
+							pok = true // round a retry loop: the previous attempt of this very request failed (nothing was stored)
+						}
+					}
 				}
-				if !pok {
+				if !pok && depth < 3 && len(p.Succs) == 1 && len(p.Preds) > 0 {
+					// a plain block in between (it builds the callback, say): judged by the edges into it
+					pok = true
+					for _, pp := range p.Preds {
+						if !edgeOK(pp, p, depth+1) {
+							pok = false
+						}
+					}
+				}
+				return pok
+			}
+			for _, p := range blk.Preds {
+				if !edgeOK(p, blk, 0) {
 					ok = false
 				}
 			}
